@@ -71,6 +71,8 @@ if ! PYTHONPATH="$TARGET_PY/pymod" "$PYTHON" -c "import similari; similari.versi
   exit 2
 fi
 
+if [ "${C18_BUILD_ONLY:-0}" = 1 ]; then echo "C18 builds are up to date"; exit 0; fi
+
 VERSION="$(sed -n 's/^version *= *"\(.*\)"/\1/p' "$REPO/Cargo.toml" | head -n 1)"
 T1=$(date +%s.%N)
 export C18_BUILD_S="$(echo "$T1 - $T0" | bc 2>/dev/null || echo 0)"
